@@ -265,6 +265,23 @@ def data_file_path():
 FILE_BYTES = bytes((i * 7 + i // 251) % 256 for i in range(70000))
 
 
+class ShortReader(object):
+    """a stream (pipe, socket, decompressor ...) whose read(n) legitimately returns fewer than n bytes before EOF"""
+
+    def __init__(self, f, most):
+        self.f = f
+        self.most = most
+        self.n = 0
+
+    def read(self, n=-1):
+        self.n += 1
+        k = self.most if self.n % 2 else max(1, self.most // 3)
+        return self.f.read(k if n is None or n < 0 else min(n, k))
+
+    def close(self):
+        self.f.close()
+
+
 class AppProgram(object):
     """Interprets a program dict:
        status, headers [[k, v]...], mode in list|gen|write|write+list|file|bytesio, chunks [latin-1 str],
@@ -343,6 +360,8 @@ class AppProgram(object):
             else:
                 f = io.BytesIO(FILE_BYTES[:p.get("bytesio_len", 5000)])
                 f.seek(p.get("file_offset", 0) % 6000)
+                if p.get("short_reads"):
+                    f = ShortReader(f, p["short_reads"])
             rec["completed"] = True
             return environ["wsgi.file_wrapper"](f, p.get("blksize", 8192))
 
